@@ -482,7 +482,7 @@ fn main() {
         },
     );
 
-    let cases = s.args.budget(4_000, 200_000);
+    let cases = s.args.budget(150_000, 5_000_000);
     s.part(
         "random",
         "seeded random values (nested records to depth 3, numerics biased to boundaries): 12 values per case, all pairs and triples; non-trivial when at least two values are of different kinds; distinct by hash of the generated values",
@@ -514,7 +514,7 @@ fn main() {
         },
     );
 
-    let cases = s.args.budget(4_000, 100_000);
+    let cases = s.args.budget(100_000, 3_000_000);
     s.part(
         "sort",
         "sort a random multiset of 5-60 pool/random values with the real Ord: no panic, result is a chain (adjacent cmp != Greater), is a permutation, and sorting a shuffled copy gives an equal sequence; distinct by hash of the multiset",
@@ -562,7 +562,7 @@ fn main() {
         },
     );
 
-    let cases = s.args.budget(3_000, 100_000);
+    let cases = s.args.budget(100_000, 3_000_000);
     s.part(
         "collections",
         "insert 3-40 values as keys into HashMap, BTreeMap and a dedup'd Vec (by ==): the three agree on the number of distinct keys and on membership of every inserted key; first-n keys of the BTreeMap equal the first n of the sorted HashMap keys (take/drop); distinct by hash of the key list",
